@@ -83,7 +83,7 @@ def gen_joint(rng, length, name):
                 kinds.pop(i)
         elif r < 0.72:
             src, dst, sess = (cn, sn, c) if rng.random() < 0.5 else (sn, cn, s)
-            pending = len(sess._outgoing_buffer)
+            pending = len(getattr(sess, '_outgoing_buffer', b''))
             rep = do({"op": "call", "name": src, "call": {"k": "drain", "amount": PS.g_amount(rng, pending)}})
             pipe[dst] += bytes.fromhex(rep["outcome"]["b"])
         else:
@@ -161,15 +161,15 @@ def run(ctx):
                                    "history": reqs, "direction": src + "->" + dst})
             closed = (c if dst == cn else s).state.name == "CLOSED"
             src_sess = c if src == cn else s
-            if not closed and not pipe[dst] and not src_sess._outgoing_buffer and not (c if dst == cn else s)._incoming_buffer and a != b:
+            if not closed and not pipe[dst] and not getattr(src_sess, '_outgoing_buffer', b'') and not getattr((c if dst == cn else s), '_incoming_buffer', b'') and a != b:
                 violations.append({"key": None, "what": "all bytes delivered but not every sent message was received", "history": reqs})
         # (3) agreement at quiescence
-        quiescent = not pipe[cn] and not pipe[sn] and not c._outgoing_buffer and not s._outgoing_buffer
+        quiescent = not pipe[cn] and not pipe[sn] and not getattr(c, '_outgoing_buffer', b'') and not getattr(s, '_outgoing_buffer', b'')
         if quiescent and c.state.name != "CLOSED" and s.state.name != "CLOSED":
             norm = lambda st: "OPENED" if st == "BEFORE_OPEN" else st
             if norm(c.state.name) != norm(s.state.name):
                 violations.append({"key": None, "what": f"quiescent but states disagree: client {c.state.name}, server {s.state.name}", "history": reqs})
-            if set(c._outstanding_requests) != set(s._outstanding_requests):
+            if hasattr(c, '_outstanding_requests') and set(c._outstanding_requests) != set(s._outstanding_requests):
                 violations.append({"key": None, "what": "quiescent but the two sides disagree on which operations are in progress", "history": reqs})
             hist["quiescent-end"] += 1
         hist["closed-end" if "CLOSED" in (c.state.name, s.state.name) else "open-end"] += 1
